@@ -131,6 +131,27 @@ def _traced_body(c, s, t, like, batches, bad, seen_inf_store, chk_store):
                 inf_seen=int(sum(k for _, k in batches)), logz=float(s.evidence()[0]), truth=t.logz)
 
 
+def long_prior_phase(seed, N, ess_ratio, f):
+    """A prior phase so long that (stored samples x iterations) exceeds 2**24 while prior batches still dominate the pool:
+    every evidence computed from the pool must still count the excluded mass once (thorough tier: ~2 minutes)."""
+    from tvf import targets
+    cfg = dict(target="support", tkw=dict(f=f, s=0.3), N=N, n_total=N, ess_ratio=ess_ratio, kernel="tpcn", mode="vec", seed=seed % 10 ** 6)
+    s, t, like, pt = runs.run(cfg)
+    H = runs.history(s)
+    warm = [i for i, b in enumerate(H["beta"]) if float(b) == 0.0]
+    bad = []
+    rows = int(sum(len(l) for l in H["logl"]))
+    logf = math.log(f)
+    zw = [float(H["logz"][i]) for i in warm]
+    if zw and max(abs(z - logf) for z in zw) > 0.05:
+        bad.append(("warmup-logz-outside-hull", f"long prior phase ({len(warm)} batches of {N}): recorded logZ(beta=0) ranges {min(zw):.4f}..{max(zw):.4f}, log f = {logf:.4f}"))
+    ev = float(s.evidence()[0])
+    if abs(ev - t.logz) > 0.1:
+        bad.append(("final-evidence-biased", f"long prior phase ({len(warm)} batches of {N}, {rows} stored samples x {len(H['beta'])} iterations = "
+                    f"{rows * len(H['beta']):.3g} mixture elements): final logZ {ev:.4f}, closed form {t.logz:.4f} (log f = {logf:.4f})"))
+    return dict(bad=bad, elements=rows * len(H["beta"]), warm=len(warm))
+
+
 def run():
     ck = Check("C11")
     tasks = []
@@ -189,6 +210,16 @@ def run():
         ck.violation("final-evidence-biased", f"support fraction f={cfg['tkw']['f']}, N={cfg['N']}, ess_ratio={cfg['ess_ratio']}: mean logZ error "
                      f"{r1['b']:+.4f} +- {r1['se']:.4f} (z={r1['z']:.1f}), confirmed {r2['b']:+.4f} +- {r2['se']:.4f} on fresh seeds", dict(cfg=cfg))
     ck.tables["final_evidence"] = ensemble.judge(ck, cells, extract, R, "final", on_v)
+    if not ck.quick:
+        lt = [("tvf.checks.c11:long_prior_phase", dict(seed=ck.subseed("long", 0), N=16384, ess_ratio=33.0, f=0.25), None)]
+        for i, st, val in farm.run(lt, timeout=2400, progress="C11-long"):
+            if st != "ok":
+                ck.inconc(f"long prior phase: {st} {str(val)[-300:]}")
+                continue
+            ck.case(dict(long_prior_phase=lt[i][1], elements=val["elements"]), nontrivial=val["elements"] > 2 ** 24)
+            ck.event("runs whose prior phase pushes samples x iterations beyond 2**24", int(val["elements"] > 2 ** 24))
+            for key, what in val["bad"]:
+                ck.violation(key, what, lt[i][1])
     ck.require_events("traced runs", "warm-up (beta=0) iterations checked against the hull", "-inf likelihood evaluations observed during warm-up",
                       "ensemble cells judged by Rule S")
     return ck.finish(
